@@ -24,6 +24,33 @@ FIRST_MISSED = {
     "C02-E": "Latin-1 / windows-1252 documents whose high bytes happen to form well-formed UTF-8 (Ã© = C3 A9)",
     "C05-E": "explicitly created EMPTY text nodes: enumerated forests with one text node emptied, and 'sandwich' forests (text / non-text alternating, texts possibly empty) under every call",
     "C08-E": "interning texts with a prefix (or the default namespace) rebound on an inner element and used again behind it: both expanded names must be found afterwards; also reported by C02",
+    "C01-H": "xml:id attributes in the random forests, with values whose edges or inside hold white space other than #x20 (TAB, CR, NBSP, U+3000): only #x20 is normalised away",
+    "C02-G": "the same values in rendered documents (TAB / LF / CR written as references)",
+    "C02-H": "fragments with several top-level elements (288 layouts): what the first one declares must not reach the later ones",
+    "C03-H": "the XML namespace bound to another prefix or as default (accepted by the crate) enters the renderer's URI table; damage kind: the same ID once as xml:id and once under that other prefix (this also exposed a genuine defect, see 11.3)",
+    "C08-G": "register an HTML element name (also upper-case, also in the namespace html5() takes for XHTML), call html5(), register again: same id",
+    "C08-H": "processing-instruction targets inside a default-namespace scope must be found as plain names afterwards",
+    "C09-G": "the change made unresolved_namespaces panic and the observer engine died with a tool error instead of reporting: every scope accessor now runs under catch_unwind and a panic shows as a value no scope can have",
+    "C16-G": "element-only nesting 36 / 70 (130) levels deep with indentation on",
+    "C17-G": "a byte order mark in front of the document (a token of its own in XotParse: skipped, but counted in every offset)",
+    "C19-H": "new rule in XotHtml: a CDATA section only inside an element whose expanded name was asked for exactly; CDATA-section names that differ from an element of the tree only in letter case or between no namespace and XHTML",
+    "C01-I": "attributes whose local name is xmlns, in a namespace (p:xmlns=\"v\" is an ordinary attribute)",
+    "C01-J": "processing-instruction data that ends in white space (in forests and in rendered documents)",
+    "C02-I": "U+0085 and U+2028 in character data and attribute values: ordinary characters in XML 1.0 (kept out of the single-byte encoding jobs)",
+    "C02-J": "every fifth parse job runs with set_text_consolidation(false) called beforehand: the parser merges character data and CDATA all the same",
+    "C03-J": "declarations with version 1.00, 1.01, 1.000, 01.0, 1.10, 2.0 besides 1.1",
+    "C06-J": "elements in an undeclared namespace inside the text / non-text 'sandwich' forests, so that create_missing_prefixes on a fragment has something to do before it meets top-level text",
+    "C07-J": "the change breaks how a state is built (first attribute behind the first of two namespace nodes); construction deviations were only counted when L1 charged them to the running check's own property - now a scenario that cannot be built is reported by every check (it is the same change as C11-C, C04-J, C05-I, which their checks reported at once)",
+    "C08-I": "interning texts with a prefix / the default namespace bound A, then B, then A again on nested elements",
+    "C10-I": "a prefix other than xml bound to the XML namespace is part of what the crate can express since 82bce36: Representable admits it, the random forests declare it now and then, XotNsL2!Emitted follows the new rule (the change is the exact reverse of that repair)",
+    "C12-J": "Xot::clone: the xml:id index of the copy is compared with the source's, and a call that deviates from L1 only in an episode continued on the copy is charged to C12 (the consolidation switch is part of the store)",
+    "C13-I": "near-duplicate mutations that only a text comparison bridges: PI data in another letter case / with a trailing space",
+    "C14-J": "reported by C16 (the property it breaks: pretty tokens give the pretty string); the C14 check looks at strings only",
+    "C16-I": "the Write-based entry point is driven through a sink that accepts 1 to 3 bytes per call",
+    "C16-J": "enumerated forests with one text node emptied, every node as serialisation root: an empty text node has its event and token too",
+    "C17-I": "attributes named like a prefix that the same start tag declares (p=\"v\" next to xmlns:p)",
+    "C19-I": "element names that are raw text in a browser but ordinary escaped text for the serializer (xmp, iframe, noembed, noframes, plaintext, noscript)",
+    "C20-I": "stepwise programs that build a text node in two pieces (the second is placed behind the first with insert_after, insert_before the next sibling, or append, and merges into it)",
     "C12-F": "xml_id_node of a document created by the call must lie inside it (new clause under C12); clone profile parses xml:id documents and clones whole documents",
     "C14-E": "a non-ASCII character in the bracket strings (] > x < CR e-acute up to length 4 / 5)",
     "C17-F": "any white space between a PI's target and its data (two spaces, newline + indent, CR LF)",
@@ -53,7 +80,8 @@ def main():
     print("\n".join(rows))
     print()
     for k, v in FIRST_MISSED.items():
-        print(f"* **{k}** - {v}")
+        if os.path.isdir(os.path.join(ROOT, "seeded", k)):
+            print(f"* **{k}** - {v}")
 
 
 if __name__ == "__main__":
